@@ -1555,6 +1555,21 @@ def argsort(x, axis=-1, kind=None, **kw):
     return asarray(x).argsort(kind=kind)
 
 
+def copyto(dst, src, casting="same_kind", where=True):
+    """numpy.copyto: element-wise assignment into dst (a store: the write monitor sees it)"""
+    from . import symrec
+    if where is not True:
+        raise Unsupported("copyto with where=")
+    if _py_isinstance(dst, symrec.SRec):
+        if not _py_isinstance(src, symrec.SRec):
+            raise Unsupported("copyto of a non-table into a table")
+        for nm in dst.dtype.names:
+            dst[nm] = src[nm]
+        return None
+    dst[...] = src
+    return None
+
+
 def diagonal(x, offset=0):
     xa = asarray(x)
     if xa.ndim != 2 or offset != 0:
